@@ -44,6 +44,13 @@ ConditionalWithinDefined == \A k \in 1..Len(E.tours) :
   \A v \in 1..Len(E.vehicles) : (E.vehicles[v].id = E.tours[k].vehicle /\ E.tours[k].shift \in 1..E.vehicles[v].shifts) =>
      \A kind \in CondKinds :
         Cardinality({ i \in 1..Len(E.tours[k].acts) : E.tours[k].acts[i].type = kind }) <= E.vehicles[v].conditional[E.tours[k].shift][kind]
+\* C03 "the overall statistic is the sum of the tours" - every member, the commuting and parking times of clustered stops included
+StatFields == {"cost", "distance", "duration", "driving", "serving", "waiting", "brk", "commuting", "parking"}
+RECURSIVE SumTours(_, _)
+SumTours(f, k) == IF k = 0 THEN 0 ELSE E.tours[k].stat[f] + SumTours(f, k - 1)
+OverallIsSumOfTours == \A f \in StatFields :
+   LET d == E.stat[f] - SumTours(f, Len(E.tours)) IN IF f = "cost" THEN d >= -5 /\ d <= 5 ELSE d = 0
+J_OverallIsSumOfTours == Judge("OverallIsSumOfTours", OverallIsSumOfTours)
 J_PickupBeforeDelivery == Judge("PickupBeforeDelivery", PickupBeforeDelivery)
 J_ConditionalWithinDefined == Judge("ConditionalWithinDefined", ConditionalWithinDefined)
 J_PartitionJobs == Judge("PartitionJobs", PartitionJobs)
